@@ -106,6 +106,10 @@ pub struct Knobs {
     pub inspect_pct: u32,
     /// percent of runs in which the caller keeps iterating after error items
     pub continue_pct: u32,
+    /// scale swarm: 0 = ordinary sizes; 1 = hundreds of outputs (257, 300: past u8 indices),
+    /// 2 = dozens of inputs (33, 40, 70: past 32-bit masks), 3 = many input X in one row (up to
+    /// 10: 1024 expansions), 4 = loop bounds of 2^32 and more, 5 = nesting depth 6-7
+    pub scale: u8,
     pub max_steps: usize,
 }
 
@@ -185,6 +189,7 @@ impl Knobs {
             after_none_pct: 0,
             inspect_pct: 0,
             continue_pct: 0,
+            scale: 0,
             max_steps: 256,
         }
     }
@@ -326,9 +331,25 @@ impl<'k> Gen<'k> {
     // configuration
 
     pub fn gen_config(&mut self) {
-        let n_in = self.between(self.k.n_in);
-        let n_out = self.between(self.k.n_out);
+        let mut n_in = self.between(self.k.n_in);
+        let mut n_out = self.between(self.k.n_out);
         let n_bidir = self.between(self.k.n_bidir);
+        let mut numbered = false;
+        match self.k.scale {
+            1 => {
+                n_out = *self.rng.pick(&[40u32, 257, 258, 300]);
+                numbered = true;
+            }
+            2 => {
+                n_in = *self.rng.pick(&[33u32, 34, 40, 70]);
+                numbered = true;
+            }
+            3 => {
+                n_in = 10 + self.rng.below(3) as u32;
+                numbered = true;
+            }
+            _ => {}
+        }
         let mut sigs = vec![];
         let mut exotic_left: Vec<&str> = EXOTIC.to_vec();
         self.rng.shuffle(&mut exotic_left);
@@ -344,7 +365,9 @@ impl<'k> Gen<'k> {
             } else {
                 *self.rng.pick(&self.k.widths)
             };
-            let name = if self.k.exotic_names && i > 0 && self.rng.chance(1, 8) {
+            let name = if numbered {
+                format!("I{i}")
+            } else if self.k.exotic_names && i > 0 && self.rng.chance(1, 8) && !exotic_left.is_empty() {
                 exotic_left.pop().unwrap().to_string()
             } else {
                 in_names[i as usize].to_string()
@@ -360,9 +383,11 @@ impl<'k> Gen<'k> {
         let output_n = self.k.shadow_outputs && self.rng.chance(1, 12);
         for i in 0..n_out {
             let bits = *self.rng.pick(&self.k.widths);
-            let name = if output_n && i == 0 {
+            let name = if numbered {
+                format!("O{i}")
+            } else if output_n && i == 0 {
                 "n".to_string()
-            } else if self.k.exotic_names && i > 1 && self.rng.chance(1, 8) {
+            } else if self.k.exotic_names && i > 1 && self.rng.chance(1, 8) && !exotic_left.is_empty() {
                 exotic_left.pop().unwrap().to_string()
             } else {
                 out_names[i as usize].to_string()
@@ -417,6 +442,18 @@ impl<'k> Gen<'k> {
         }
         for v in &self.virtual_names {
             cols.push((v.clone(), Col::Virt));
+        }
+        if matches!(self.k.scale, 1 | 2) && cols.len() > 12 {
+            // hundreds of signals: a header of a dozen columns that reaches the far end of
+            // the signal list
+            let last = cols.len() - 1;
+            let mut keep: Vec<usize> = vec![0, last, last - 1, 255.min(last), 256.min(last), 32.min(last), 31.min(last)];
+            for _ in 0..5 {
+                keep.push(self.rng.usize(cols.len()));
+            }
+            keep.sort();
+            keep.dedup();
+            cols = keep.into_iter().map(|i| cols[i].clone()).collect();
         }
         if self.k.header_swarm {
             if self.rng.chance(2, 3) {
@@ -1044,6 +1081,19 @@ impl<'k> Gen<'k> {
     fn gen_bound(&mut self) -> (Expr, usize) {
         let k = self.k;
         self.randoms_in_stmt = 0;
+        if k.scale == 4 && self.rng.chance(1, 2) {
+            // far more iterations than the caller will ever pull: the step cap ends the run
+            let n = *self.rng.pick(&[
+                1i64 << 32,
+                (1i64 << 32) + 7,
+                1i64 << 31,
+                1i64 << 40,
+                i64::MAX,
+                70_000,
+                65_536,
+            ]);
+            return (Expr::Num(n), usize::MAX);
+        }
         let w = [k.w_bound_const, k.w_bound_zero, k.w_bound_neg, k.w_bound_expr];
         match self.rng.weighted(&w) {
             0 => {
@@ -1140,7 +1190,9 @@ impl<'k> Gen<'k> {
                             var = o;
                         }
                     }
-                    let inner_budget = if iters == 0 { 4 } else { left / iters };
+                    let huge = iters == usize::MAX;
+                    let iters = if huge { left.max(1) } else { iters };
+                    let inner_budget = if iters == 0 { 4 } else { (left / iters).max(huge as usize) };
                     if inner_budget == 0 {
                         continue;
                     }
@@ -1154,7 +1206,8 @@ impl<'k> Gen<'k> {
                     } else {
                         None
                     };
-                    let (mut body, cost) = self.gen_block(depth + 1, inner_budget, false);
+                    // (an endless loop needs a direct row, so that the step cap ends the run)
+                    let (mut body, cost) = self.gen_block(depth + 1, inner_budget, huge);
                     // wild only: rebind the loop's own counter inside its body (the properties
                     // leave the number of iterations open then, so only "no panic, every
                     // next() returns" is judged; the body needs a direct row so that the cap
@@ -1172,7 +1225,8 @@ impl<'k> Gen<'k> {
                 }
                 3 => {
                     let (bound, iters) = self.gen_bound();
-                    let per = if iters == 0 { 4 } else { left / iters };
+                    let iters = if iters == usize::MAX { left.max(1) } else { iters };
+                    let per = if iters == 0 { 4 } else { (left / iters).max(1) };
                     if per == 0 {
                         continue;
                     }
